@@ -1066,6 +1066,7 @@ class Interp:
         if cur is not None and target in getattr(cur, "externals", {}):
             self.ctx.trusted.add(f"external:{target} returns the contract's ghost object `{cur.externals[target]}`")
             efr = Frame(eng.contract_module(cur), dict(self.ctx.ghost))
+            efr.locals["args"] = tuple(args)      # (self first, for methods)
             return self.eval(eng.parse_clause(cur.externals[target]), efr)
         # modular: callee under contract is replaced by its contract
         c = eng.contract_for_call(self, target)
@@ -1074,10 +1075,16 @@ class Interp:
                 # calling an async function only makes the coroutine; its contract applies when awaited
                 return Coro(lambda: eng.call_by_contract(self, c, f, args, kwargs), label=f.qualname)
             return eng.call_by_contract(self, c, f, args, kwargs)
+        if isinstance(f.node, ast.AsyncFunctionDef):
+            # calling an async function only creates the coroutine; whether its body is within reach
+            # matters only if it is awaited here
+            def body():
+                if f.closure is None and not eng.may_inline(self, target, f):
+                    raise Unsupported(f"await of {target}: no contract and not inlinable")
+                return self.run_function(f, args, kwargs)
+            return Coro(body, label=f.qualname)
         if not isinstance(f.node, ast.Lambda) and f.closure is None and not eng.may_inline(self, target, f):
             raise Unsupported(f"call to {target}: no contract and not inlinable")
-        if isinstance(f.node, ast.AsyncFunctionDef):
-            return Coro(lambda: self.run_function(f, args, kwargs), label=f.qualname)
         return self.run_function(f, args, kwargs)
 
     def run_function(self, f: FuncRef, args, kwargs):
